@@ -19,6 +19,7 @@ import (
 	"fmt"
 	"github.com/echovault/sugardb/internal"
 	"github.com/echovault/sugardb/internal/clock"
+	"github.com/echovault/sugardb/internal/verif"
 	"io"
 	"os"
 	"path"
@@ -114,11 +115,13 @@ func (store *Store) CreatePreamble() error {
 	if err != nil {
 		return err
 	}
+	verif.Point("aof.pre.copied")
 
 	// Truncate the preamble first
 	if err = store.rw.Truncate(0); err != nil {
 		return err
 	}
+	verif.Point("aof.pre.truncate")
 	// Seek to the beginning of the file after truncating
 	if _, err = store.rw.Seek(0, 0); err != nil {
 		return err
@@ -127,11 +130,13 @@ func (store *Store) CreatePreamble() error {
 	if _, err = store.rw.Write(o); err != nil {
 		return err
 	}
+	verif.Point("aof.pre.write", len(o))
 
 	// Sync the changes
 	if err = store.rw.Sync(); err != nil {
 		return err
 	}
+	verif.Point("aof.pre.sync")
 
 	return nil
 }
